@@ -15,8 +15,8 @@ func AlphaPayments(w *World) []Action {
 // AlphaSiafunds: contract formation (moves the tax pool) and siafund spends with claims.
 func AlphaSiafunds(w *World) []Action {
 	return []Action{
-		V1Form(2, 2, 100), V1SF(false), V1SF(true),
-		V2Form(2, 2, 100), V2SF(false), V2SF(true), V2Pay(AddrV2, false, 1),
+		V1Form(2, 2, 100), V1SF(false), V1SF(true), V1SFChain(),
+		V2Form(2, 2, 100), V2SF(false), V2SF(true), V2SFChain(), V2Pay(AddrV2, false, 1),
 	}
 }
 
